@@ -160,6 +160,9 @@ SHAPES = {1: [[[1]], [[]]],
 def main(chk: Check):
     thorough = chk.tier == "thorough"
     dump = WORK / f"tuner-{os.getpid()}.dump"
+    if thorough:
+        chk.model("HyperTuner_mc_thorough.cfg", tlc.run("HyperTuner.tla", "HyperTuner_mc_thorough.cfg", workers=16, timeout=3600),
+                  note="grids of up to 3 sub-grids, tables of up to 4 points")
     res = tlc.run("HyperTuner.tla", "HyperTuner_mc.cfg", workers=16, timeout=1800, extra=["-dump", str(dump)])
     chk.model("HyperTuner_mc.cfg", res, note="LawLen, LawIndex, LawOutOfRange, LawDistinct, LawSelect over all grids / tables")
     for cfg, law in (("HyperTuner_doubleinvert.cfg", "LawSelect"), ("HyperTuner_offbyone.cfg", "LawIndex")):
